@@ -99,16 +99,27 @@ let f _id vs =
     let dec = if as_bool b64ok then Some tokc else None in
     let m = with_b64 dec (step api backend rows (z_of_int psi) (as_cbytes ty)) in
     let model = show_outcome m and obs = show_obs outcome in
-    if model = obs then begin
-      if api = 0 && backend = 0 && as_bool b64ok then
-        match read_mem_finding (nat_of_int (List.length rows)) tokc with
-        | Some FNegativeOffsetPanics -> "KNOWN negative_offset_panics token=" ^ hex_of_string (as_bytes tok) ^ " outcome=" ^ obs
-        | Some FOffsetBeyondEndRestarts -> "KNOWN offset_beyond_end_restarts token=" ^ hex_of_string (as_bytes tok) ^ " outcome=" ^ obs
-        | None -> "OK"
-      else "OK"
-    end
+    if model = obs then "OK"
     else if obs = "20" then "PROP panic on token " ^ hex_of_string (as_bytes tok) ^ " model=" ^ model
-    else "DIFF token=" ^ hex_of_string (as_bytes tok) ^ " model=" ^ model ^ " impl=" ^ obs
+    else begin
+      (* memory Read (offset tokens): the property predicate on the observation alone -- an accepted
+         token must not bring back an item that lies before the offset it denotes *)
+      let goes_back =
+        api = 0 && backend = 0 && as_bool b64ok &&
+        (match storage_from tokc with
+         | Some (_ :: _ as u) ->
+           (match atoi u, as_list outcome with
+            | Some z, [c; ids; _] when as_int c = 0 ->
+              let pos id =
+                let rec go i = function [] -> max_int | (_, x) :: r -> if int_of_n x = id then i else go (i + 1) r in
+                go 0 rows in
+              let zi = match z with Z0 -> 0 | Zpos p -> (let d = dec_of_pos p in if String.length d > 15 then max_int else int_of_string d) | Zneg _ -> -1 in
+              zi < 0 || List.exists (fun id -> pos (as_int id) < zi) (as_list ids)
+            | _ -> false)
+         | _ -> false) in
+      if goes_back then "PROP offset token misread (negative offset accepted, or an item before the offset returned): token=" ^ hex_of_string (as_bytes tok) ^ " impl=" ^ obs ^ " model=" ^ model
+      else "DIFF token=" ^ hex_of_string (as_bytes tok) ^ " model=" ^ model ^ " impl=" ^ obs
+    end
   | I "4" :: api :: ps :: ty :: rows :: tok :: bad :: obsf :: obsc :: [] ->
     (* sqlite, one request repeated with a fault on the row whose key is [bad] *)
     let api = as_int api in
